@@ -9,11 +9,9 @@ import (
 	"sort"
 	"strings"
 	"testing"
-	"time"
 
 	"github.com/google/mtail/internal/exporter"
 	"github.com/google/mtail/internal/metrics"
-	"github.com/google/mtail/internal/metrics/datum"
 	"github.com/google/mtail/verif/hx"
 	"github.com/google/mtail/verif/vstat"
 	dto "github.com/prometheus/client_model/go"
@@ -159,84 +157,9 @@ func runC13x(c storeCase) *vstat.Failure {
 	}
 	// change the store and scrape the same exporter again: the exposition must
 	// reflect the store as it is now
-	var c2 storeCase
-	b, _ := json.Marshal(c)
-	if err := json.Unmarshal(b, &c2); err != nil {
-		return vstat.Failf("harness", "%v", err)
-	}
-	for _, u := range c.Phase2.Updates {
-		if u.M >= len(c2.Metrics) || u.LV >= len(c2.Metrics[u.M].LVs) {
-			continue
-		}
-		sm := &c2.Metrics[u.M]
-		lv := &sm.LVs[u.LV]
-		d, err := ms[u.M].GetDatum(vstat.Strs(lv.Labels)...)
-		if err != nil {
-			return vstat.Failf("bad-case", "%v", err)
-		}
-		if u.TimeNs != 0 {
-			lv.TimeNs = u.TimeNs
-		}
-		ts := time.Unix(0, lv.TimeNs)
-		switch sm.typ() {
-		case metrics.Int:
-			lv.I = u.I
-			datum.SetInt(d, u.I, ts)
-		case metrics.Float:
-			lv.F = u.F
-			datum.SetFloat(d, float64(u.F), ts)
-		case metrics.Buckets:
-			for _, o := range u.Obs {
-				lv.Obs = append(lv.Obs, o)
-				datum.Observe(d, float64(o), ts)
-			}
-		}
-	}
-	replace := func(i int, addKey bool) *vstat.Failure {
-		if i >= len(c2.Metrics) {
-			return nil
-		}
-		sm := &c2.Metrics[i]
-		if addKey {
-			sm.Keys = append(append([]string{}, sm.Keys...), "extra")
-			for j := range sm.LVs {
-				sm.LVs[j].Labels = append(append([]vstat.Q{}, sm.LVs[j].Labels...), "e")
-			}
-		} else {
-			if len(sm.Keys) == 0 {
-				return nil
-			}
-			nk := make([]string, len(sm.Keys))
-			for k, key := range sm.Keys {
-				nk[k] = key + "_2"
-			}
-			sm.Keys = nk
-		}
-		m, err := c2.buildOne(i)
-		if err != nil {
-			return vstat.Failf("bad-case", "%v", err)
-		}
-		if err := store.Add(m); err != nil {
-			return vstat.Failf("bad-case", "store refused the replacement of %s: %v", sm.Name, err)
-		}
-		return nil
-	}
-	done := map[int]bool{}
-	for _, i := range c.Phase2.Rekey {
-		if !done[i] {
-			done[i] = true
-			if f := replace(i, false); f != nil {
-				return f
-			}
-		}
-	}
-	for _, i := range c.Phase2.AddKey {
-		if !done[i] {
-			done[i] = true
-			if f := replace(i, true); f != nil {
-				return f
-			}
-		}
+	c2, f := c.applyPhase2(store, ms)
+	if f != nil {
+		return f
 	}
 	c2.Phase2 = nil
 	if f := c13Compare(sc, &c2); f != nil {
@@ -379,40 +302,9 @@ func TestC13(t *testing.T) {
 			if !unrepOK {
 				st.Excluded("C13-1")
 			}
-			// second phase: in-place updates (same or new timestamps, further
-			// histogram observations) and reload-style replacements with other keys
-			if len(c.Metrics) > 0 && rapid.IntRange(0, 2).Draw(rt, "phase2") > 0 {
-				p2 := &sPhase2{}
-				nu := rapid.IntRange(0, 4).Draw(rt, "nupd")
-				for i := 0; i < nu; i++ {
-					mi := rapid.IntRange(0, len(c.Metrics)-1).Draw(rt, "um")
-					if len(c.Metrics[mi].LVs) == 0 {
-						continue
-					}
-					u := sUpdate{M: mi, LV: rapid.IntRange(0, len(c.Metrics[mi].LVs)-1).Draw(rt, "ulv")}
-					u.I = rapid.Int64Range(-1000, 1000).Draw(rt, "ui")
-					u.F = c21F(rapid.Float64Range(-1e6, 1e6).Draw(rt, "uf"))
-					no := rapid.IntRange(1, 3).Draw(rt, "uno")
-					for k := 0; k < no; k++ {
-						u.Obs = append(u.Obs, c21F(rapid.SampledFrom([]float64{-1, 0, 0.5, 1, 2, 3.5, 10, 1e9}).Draw(rt, "uo")))
-					}
-					if rapid.Bool().Draw(rt, "unewts") {
-						u.TimeNs = c.Metrics[mi].LVs[u.LV].TimeNs + int64(rapid.IntRange(1, 5).Draw(rt, "udt"))*1e9
-					}
-					p2.Updates = append(p2.Updates, u)
-				}
-				nr := rapid.IntRange(0, 2).Draw(rt, "nrekey")
-				for i := 0; i < nr; i++ {
-					mi := rapid.IntRange(0, len(c.Metrics)-1).Draw(rt, "rm")
-					if rapid.Bool().Draw(rt, "addkey") {
-						p2.AddKey = append(p2.AddKey, mi)
-					} else {
-						p2.Rekey = append(p2.Rekey, mi)
-					}
-				}
-				c.Phase2 = p2
+			if genPhase2(rt, &c) {
 				st.Class("second-scrape-after-store-change")
-				if len(p2.Rekey)+len(p2.AddKey) > 0 {
+				if len(c.Phase2.Rekey)+len(c.Phase2.AddKey) > 0 {
 					st.Class("second-scrape-after-key-change")
 				}
 			}
